@@ -790,7 +790,22 @@ def run_shard(col, k, nshards, tier, seed):
         if i % nshards == k:
             for rec in judge(c, col):
                 col.fail(rec, c)
+    # trees of the production-pair sentences of the live grammars (every production with every alternative of its
+    # nonterminals): every node class the parsers can build is copied at least once
+    from vf.gens import grammar
+    pstep = 6 if tier == 'quick' else 1
+    n = 0
+    for d in corpus.DIALECTS:
+        for i, (_, toks) in enumerate(grammar.get(d).pair_sentences()):
+            n += 1
+            if i % pstep == 0 and (i // pstep) % nshards == k:
+                c = {'kind': 'tree', 'dialect': d, 'sql': ' '.join(toks), 'how': 'deepcopy' if i % 2 else 'copy',
+                     'origin': 'pairs', 'muts': [[3, 0, 0], [7, 2, 1], [11, 4, 2], [5, 3, 3]]}
+                for rec in judge(c, col):
+                    col.fail(rec, c)
     if k == 0:
+        col.exhaustive_parts.append(f'copy + 4 fixed mutations of the tree of every {"6th " if pstep > 1 else ""}accepted '
+                                    f'production-pair sentence ({n} sentences over 3 dialects)')
         col.exhaustive_parts.append(f'copy + 4 fixed mutations of all {len(corpus.accepted())} corpus trees; equality laws over the '
                                     f'{len(_PLANNABLE)} (corpus statement, catalog) pairs that plan; qualified-star shapes')
     hyp.explore(col, cases(), judge, N[tier], seed)
